@@ -20,10 +20,17 @@ for sid in ids:
     t=time.time()
     try:
         rc,out=sh(f"./check --no-evidence --repo {REPO} {prop}", "/verif")
+    except subprocess.TimeoutExpired:
+        rc,out=-9,"(check timed out in the sweep harness)"
     finally:
-        sh("git checkout -- .", REPO)
+        sh("git checkout -- . && git clean -fdq", REPO)
     viol=[l for l in out.splitlines() if l.startswith("VIOLATION")]
     confirmed=[l for l in viol if "no-failing-input-found" not in l]
     res[sid]={"property":prop,"exit":rc,"violations":len(viol),"with_replayed_input":len(confirmed),"first":(viol[0][:300] if viol else ""),"s":round(time.time()-t,1)}
     print(sid, json.dumps(res[sid])[:420], flush=True)
-json.dump(res,open(os.environ.get("SEED_OUT","/verif/out/seeded_results.json"),"w"),indent=1)
+    OUT=os.environ.get("SEED_OUT","/verif/out/seeded_results.json")
+    allres={}
+    if os.environ.get("SEED_MERGE") and os.path.exists(OUT):
+        allres=json.load(open(OUT))
+    allres.update(res)
+    json.dump(allres,open(OUT,"w"),indent=1)
